@@ -778,8 +778,13 @@ class AutoEvaluator(Evaluator):
             if p_ not in env and d is not None:
                 env[p_] = self.ev(d)
         # names of the caller that are not rebound by the callee stay visible only as symbols (a callee reads its own scope)
-        sub = AutoEvaluator(fn, env=env, cond=self.cond, src=self.src, funcs=None, subscript=self.subscript, call=self.call_hook,
-                            binop=self.binop_hook)
+        try:
+            sub = type(self)(fn, env=env, cond=self.cond, src=self.src, funcs=None, subscript=self.subscript, call=self.call_hook,
+                             binop=self.binop_hook)      # a subclass keeps its own extensions inside the callee
+        except TypeError:
+            sub = AutoEvaluator(fn, env=env, cond=self.cond, src=self.src, funcs=None, subscript=self.subscript, call=self.call_hook,
+                                binop=self.binop_hook)
+        sub.module_consts = self.module_consts
         sub.inline = self.inline
         sub.inline_depth = self.inline_depth + 1
         sub.loop_unroll, sub.loop_once, sub.forward_stores, sub.erase_T = self.loop_unroll, self.loop_once, self.forward_stores, self.erase_T
